@@ -1,14 +1,17 @@
 #!/bin/bash
 # tools_regress.sh [list]: apply every stored seeded change in turn to /repo, run the check that owns
-# its fault class at the quick tier, undo it. Writes /verif/seeded/REGRESSION.txt. Nothing else may
-# build from /repo while this runs.
+# its fault class at the quick tier (case counts capped for the slower checks, see CAP below), undo it.
+# Writes /verif/seeded/REGRESSION.txt. Nothing else may build from /repo while this runs.
 LIST=${1:-/tmp/regress_list.txt}
 OUT=/verif/seeded/REGRESSION.txt
-echo "# regression of all stored seeded changes against the final checks ($(date -u +%FT%TZ), /repo $(git -C /repo log --format=%h -1), /verif $(git -C /verif log --format=%h -1))" > $OUT
+declare -A CAP=( [C01]=700 [C03]=1500 [C04]=1500 [C06]=1200 [C15]=2000 [C17]=1200 [C08]=600 [C14]=700 )
+echo "# regression of all stored seeded changes against the final checks ($(date -u +%FT%TZ), /repo $(git -C /repo log --format=%h -1), /verif $(git -C /verif log --format=%h -1)); quick tier, VERIF_CASES capped: ${!CAP[@]} -> ${CAP[@]}" > $OUT
 while read sid chk tier; do
   [ -z "$sid" ] && continue
+  if [ "$tier" = notcaught ]; then echo "$sid: not caught by any check (documented in DESIGN.md)" >> $OUT; continue; fi
   if [ "$tier" != quick ]; then echo "$sid: skipped here (caught by the $tier tier only)" >> $OUT; continue; fi
-  line=$(/verif/tools_recheck.sh $sid $chk quick 2>&1 | tail -n 1)
+  cap=${CAP[$chk]:-}
+  line=$(VERIF_CASES=$cap /verif/tools_recheck.sh $sid $chk quick 2>&1 | tail -n 1)
   echo "$line" >> $OUT
   if [ -n "$(git -C /repo status --short)" ]; then git -C /repo checkout -- . ; fi
 done < $LIST
